@@ -219,6 +219,19 @@ type modelResp struct {
 	Dynamic   bool     `json:"dynamic"`
 	PlanErr   bool     `json:"planErr"`
 	Oof       bool     `json:"oof"`
+	// validation side: proved bounds (overlap_cost_poly, memo_body_at_most_once) evaluated on this document, its
+	// syntactic sizes [fields, sets, spread names, fragments], and (on request) the counters of c02b's overlap model
+	OverlapBound uint64   `json:"overlapBound"`
+	FfBound      uint64   `json:"ffBound"`
+	BfBound      uint64   `json:"bfBound"`
+	Sizes        []uint64 `json:"sizes"`
+	LocsDistinct bool     `json:"locsDistinct"`
+	Overlap      *struct {
+		NFC   uint64 `json:"nFC"`
+		CntFF uint64 `json:"cntFF"`
+		CntBF uint64 `json:"cntBF"`
+		Oof   bool   `json:"oof"`
+	} `json:"overlap"`
 }
 
 type outcome struct {
@@ -233,6 +246,9 @@ type outcome struct {
 	ExecMs   float64  `json:"execMs"`
 	World    int      `json:"worldSize"`
 	Errors   int      `json:"errors"`
+	// proved bound on findConflict calls for this document and its syntactic sizes (from the driver)
+	OverlapBound uint64   `json:"overlapBound"`
+	Sizes        []uint64 `json:"sizes"`
 }
 
 const watchdog = 30 * time.Second
@@ -363,7 +379,9 @@ func (r *runner) one(c caseT) *outcome {
 	o.World = root.size()
 	// --- the model
 	var m modelResp
-	req := map[string]interface{}{"schema": b.desc, "doc": astjson.Document(doc), "op": c.Op, "vars": c.Vars, "world": root.json()}
+	// the overlap model re-runs the whole memoised rule: asked for whenever the real rule made < 2 million findConflict calls
+	wantOverlap := o.Validate[graphql.VerifSiteFindConflict] < 2000000
+	req := map[string]interface{}{"schema": b.desc, "doc": astjson.Document(doc), "op": c.Op, "vars": c.Vars, "world": root.json(), "overlap": wantOverlap}
 	if err := r.drv.Ask(req, &m); err != nil {
 		run.CheckError(err.Error())
 		return nil
@@ -377,6 +395,29 @@ func (r *runner) one(c caseT) *outcome {
 	}
 	if m.Plan[0] > m.Top || m.Exec[0] > m.WorkBound || m.Exec[1] > m.WorldSize {
 		run.Violation("model counters exceed the proved bounds (theorem contradicted: model/driver fault)", map[string]interface{}{"case": c, "model": m}, true)
+	}
+	// --- validation counters against the proved bounds and against c02b's model of the overlap rule
+	o.OverlapBound, o.Sizes = m.OverlapBound, m.Sizes
+	if !m.LocsDistinct {
+		run.CheckError("selection sets of a parsed document do not start at distinct bytes: " + hxTrunc(c.Src, 120))
+		return nil
+	}
+	fc, ff, bf := graphql.VerifSiteFindConflict, graphql.VerifSiteFieldsAndFragment, graphql.VerifSiteBetweenFragments
+	if o.Validate[fc] > m.OverlapBound || o.Validate[ff] > m.FfBound || o.Validate[bf] > m.BfBound {
+		viol(fmt.Sprintf("REAL validation step counters exceed the proved bounds: findConflict=%d (overlap_cost_poly bound %d), fieldsAndFragment=%d (bound %d), betweenFragments=%d (bound %d); sizes [fields sets spreadNames fragments]=%v",
+			o.Validate[fc], m.OverlapBound, o.Validate[ff], m.FfBound, o.Validate[bf], m.BfBound, m.Sizes), map[string]interface{}{"model": m})
+		return o
+	}
+	if m.Overlap != nil {
+		if m.Overlap.Oof {
+			run.Violation("the overlap model ran out of fuel (theorem overlap_no_fuel_exhaustion contradicted: model/driver fault)", map[string]interface{}{"case": c, "model": m}, true)
+		}
+		if o.Validate[fc] != m.Overlap.NFC || o.Validate[ff] != m.Overlap.CntFF || o.Validate[bf] != m.Overlap.CntBF {
+			viol(fmt.Sprintf("validation step counters differ from the model of the overlap rule: go findConflict=%d fieldsAndFragment=%d betweenFragments=%d, model %d %d %d",
+				o.Validate[fc], o.Validate[ff], o.Validate[bf], m.Overlap.NFC, m.Overlap.CntFF, m.Overlap.CntBF), map[string]interface{}{"model": m})
+			return o
+		}
+		run.Tag("overlap-counters-compared-with-model")
 	}
 	if m.PlanErr != o.PlanErr {
 		viol("PlanQuery error/success differs from the model's operation selection", map[string]interface{}{"model": m})
@@ -603,6 +644,9 @@ type series struct {
 	K      float64   `json:"fitted_exponent"`
 	Limit  float64   `json:"limit"`
 	Times  []float64 `json:"ms,omitempty"`
+	// validate/findConflict only: the proved bound overlapBound(d) per family member and bound/count at the largest n
+	Bounds    []uint64 `json:"proved_bound,omitempty"`
+	Tightness float64  `json:"bound_over_count_at_max_n,omitempty"`
 }
 
 var siteNames = []string{"collectInto", "planMergedSelectionsForType", "findConflict", "fieldsAndFragment", "betweenFragments"}
@@ -711,6 +755,14 @@ func main() {
 						s.Times = append(s.Times, ph.time(o))
 					}
 					s.K = fit(s.Counts)
+					if ph.name == "validate" && site == graphql.VerifSiteFindConflict {
+						for _, o := range base {
+							s.Bounds = append(s.Bounds, o.OverlapBound)
+						}
+						if last := s.Counts[len(s.Counts)-1]; last > 0 {
+							s.Tightness = math.Round(float64(s.Bounds[len(s.Bounds)-1])/float64(last)*10) / 10
+						}
+					}
 					allSeries = append(allSeries, s)
 					if s.K > ph.limit+tolerance {
 						c := caseT{Family: f.name, N: ns[len(ns)-1], M: f.ms[0], Src: f.doc(ns[len(ns)-1]), Op: f.op, Vars: f.vars, Mode: mode, Runs: 1, Valid: f.valid,
